@@ -5,67 +5,78 @@
 From Verif Require Import GoSem Scte ScteProofs ScteSectionProofs.
 
 (** What one video segment carries: at most one event; it is a scheduled splice (documented offset
-    of the minute in which the segment starts) whose announce instant, 7 s before the splice, lies in
-    (start, end]; and every such splice is carried. No unscheduled event, no error on a valid segment. *)
+    of some wall-clock minute) whose announce instant, 7 s before the splice, lies in (start, end];
+    and every such splice is carried. No unscheduled event, no error on a valid segment. *)
 Theorem C13_segment : forall ts n s e offs sigma,
   seg_dom ts s e -> splice_offsets n = Some offs ->
   (carried ts n (s, e) = Some sigma <->
-   exists off, In off offs /\ sigma = sched_time ts (s / (60 * ts)) off /\
-               s < announce_of ts sigma <= e).
+   exists m off, 0 <= m /\ In off offs /\ sigma = sched_time ts m off /\
+                 s < announce_of ts sigma <= e).
 Proof. exact carried_spec. Qed.
 Print Assumptions C13_segment.
 
 (** Exactly once, for ANY contiguous segment sequence (each segment 0 < d <= 10 s, end = next start,
     no uint64 wrap), N in {1,2,3}, every minute m and every documented offset whose announce instant
-    lies inside the sequence: the segment h containing the announce instant exists, and the number of
-    segments of the whole sequence that carry an event for that splice is 1 if h starts in minute m
-    and 0 if h starts before it; no segment other than h ever carries it. *)
+    lies inside the sequence: the segment h containing the announce instant exists, it carries the
+    event, the number of segments of the whole sequence that carry an event for that splice is 1,
+    and no segment other than h carries it. (Unconditional since fix f8b1b37; before it the segment
+    had to start in the minute of the splice.) *)
 Theorem C13_exactly_once : forall ts n segs offs m off,
   seq_dom ts segs -> splice_offsets n = Some offs -> In off offs -> 0 <= m ->
   let sigma := sched_time ts m off in
   let a := announce_of ts sigma in
   seq_start segs < a <= seq_end segs ->
   exists h, holder a segs = Some h /\ In h segs /\ fst h < a <= snd h /\
-    announcements ts n sigma segs = (if 60 * ts * m <=? fst h then 1 else 0) /\
-    (forall seg, In seg segs -> carries ts n sigma seg = true -> seg = h) /\
-    carries ts n sigma h = (60 * ts * m <=? fst h).
+    announcements ts n sigma segs = 1 /\
+    carries ts n sigma h = true /\
+    (forall seg, In seg segs -> carries ts n sigma seg = true -> seg = h).
 Proof. exact announcements_count. Qed.
 Print Assumptions C13_exactly_once.
 
-(** The hypothesis "h starts in minute m" can only fail for the first offset (10 s): the other
-    announce instants are at least 29 s into the minute and a segment is at most 10 s long. *)
-Theorem C13_later_offsets_unconditional : forall ts m off s e,
-  0 < ts -> 0 <= m -> 17 <= off -> e - s <= 10 * ts ->
-  s < announce_of ts (sched_time ts m off) <= e -> 60 * ts * m <= s.
-Proof. exact later_offsets_in_minute. Qed.
-Print Assumptions C13_later_offsets_unconditional.
+(** ... and a splice whose announce instant lies outside the sequence is announced by none of its segments. *)
+Theorem C13_not_outside : forall ts n segs offs m off,
+  seq_dom ts segs -> splice_offsets n = Some offs -> In off offs -> 0 <= m ->
+  let sigma := sched_time ts m off in
+  let a := announce_of ts sigma in
+  (a <= seq_start segs \/ seq_end segs < a) ->
+  announcements ts n sigma segs = 0.
+Proof. exact announcements_outside. Qed.
+Print Assumptions C13_not_outside.
 
-(** Over a wall-clock minute: a sequence covering the announce instants of minute m in which the
-    segment containing the first one starts in minute m carries exactly N events with a splice time
-    in minute m, each documented offset exactly once. *)
+(** Every event of a sequence is a scheduled splice, announced from inside the sequence. *)
+Theorem C13_only_scheduled : forall ts n segs offs sigma,
+  seq_dom ts segs -> splice_offsets n = Some offs -> In sigma (events ts n segs) ->
+  exists m off, 0 <= m /\ In off offs /\ sigma = sched_time ts m off /\
+                seq_start segs < announce_of ts sigma <= seq_end segs.
+Proof. exact events_scheduled. Qed.
+Print Assumptions C13_only_scheduled.
+
+(** Over a wall-clock minute: a sequence covering the announce instants of minute m (3 s ... 39 s
+    after the minute) carries exactly N events with a splice time in minute m, each documented
+    offset exactly once. *)
 Theorem C13_per_minute : forall ts n segs offs m,
   seq_dom ts segs -> splice_offsets n = Some offs -> 0 <= m ->
   seq_start segs < (60 * m + 3) * ts -> (60 * m + 39) * ts <= seq_end segs ->
-  (forall h, holder ((60 * m + 3) * ts) segs = Some h -> 60 * ts * m <= fst h) ->
   lenZ (events_in_minute ts n m segs) = n /\
   forall off, In off offs -> announcements ts n (sched_time ts m off) segs = 1.
 Proof. exact minute_has_n_events. Qed.
 Print Assumptions C13_per_minute.
 
-(** FINDING (missing-event:minute-boundary). 8 s segments at 90 kHz (testpic_8s), N = 1: the segment
-    [56 s, 64 s) contains the announce instant 63 s of the splice at 70 s but starts in minute 0, so
-    CreateEmsgAhead only considers the splice at 10 s: the event for 70 s is never sent. *)
-Theorem C13_minute_boundary_refuted :
+(** The former finding missing-event:minute-boundary (fixed by f8b1b37): 8 s segments at 90 kHz
+    (testpic_8s), N = 1: the segment [56 s, 64 s) contains the announce instant 63 s of the splice at
+    70 s and starts in minute 0; it now carries that event, which is announced exactly once. *)
+Theorem C13_minute_boundary_fixed :
   let ts := 90000 in
   let sigma := sched_time ts 1 10 in
   let a := announce_of ts sigma in
   seq_dom ts segs8 /\ splice_offsets 1 = Some [10] /\
   seq_start segs8 < a <= seq_end segs8 /\
   holder a segs8 = Some (56 * ts, 64 * ts) /\
-  announcements ts 1 sigma segs8 = 0 /\
-  events ts 1 segs8 = [10 * ts].
+  carried ts 1 (56 * ts, 64 * ts) = Some sigma /\
+  announcements ts 1 sigma segs8 = 1 /\
+  events ts 1 segs8 = [10 * ts; 70 * ts].
 Proof. exact minute_boundary_witness. Qed.
-Print Assumptions C13_minute_boundary_refuted.
+Print Assumptions C13_minute_boundary_fixed.
 
 (** The event a segment carries is the one with these fields (a valid segment never fails). *)
 Theorem C13_event_built : forall ts n s e offs sigma,
@@ -76,12 +87,12 @@ Proof. exact carried_emsg. Qed.
 Print Assumptions C13_event_built.
 
 (** Fields of the event for the splice at second k (sigma = k*ts), for 32-bit timescale and second
-    count and **k*ts*90000 < 2^64**: presentation time, id, duration (20 s for N=1, else 10 s), and the
-    embedded section: CRC-32/MPEG-2 over all bytes is 0, pts_time = k*90000 mod 2^33, break duration,
-    flags. Last clause (FINDING pts-adjustment-cancels-pts-time): pts_adjustment = -pts_time mod 2^33,
-    so pts_time + pts_adjustment = 0 for a receiver that applies the adjustment. *)
+    count: presentation time, id, duration (20 s for N=1, else 10 s), and the embedded section:
+    CRC-32/MPEG-2 over all bytes is 0, pts_time = k*90000 mod 2^33, break duration, flags, and
+    pts_adjustment = 0 so that pts_time + pts_adjustment is the splice time. (Since 3532b28 there is no
+    bound on k*ts*90000 any more; since 97520b1 the adjustment no longer cancels pts_time.) *)
 Theorem C13_fields : forall ts n k,
-  0 < ts < two32 -> 20 * ts < two32 -> 0 <= k < two32 -> k * ts * 90000 < two64 ->
+  0 < ts < two32 -> 20 * ts < two32 -> 0 <= k < two32 ->
   let sigma := k * ts in
   let em := emsg_of ts n sigma in
   e_timescale em = ts /\ e_pt em = sigma /\ e_id em = k /\ e_dur em = ad_seconds n * ts /\
@@ -92,18 +103,17 @@ Theorem C13_fields : forall ts n k,
     v_break_dur v = ad_seconds n * 90000 /\ v_has_dur v = true /\ v_auto v = true /\
     v_out v = true /\ v_cancel v = false /\ v_immediate v = false /\ v_program v = true /\
     v_tier v = 4095 /\ v_upid v = 0 /\ v_avail v = 0 /\ v_avails v = 0 /\ v_desc_len v = 0 /\
-    v_pts_adjustment v = (two33 - v_pts_time v) mod two33.
+    v_pts_adjustment v = 0.
 Proof. exact emsg_fields. Qed.
 Print Assumptions C13_fields.
 
-(** FINDING (pts-uint64-overflow): without k*ts*90000 < 2^64 the pts_time is wrong
-    (timescale 10^7, second 20497030: spliceTime*90000 wraps in uint64). *)
-Theorem C13_pts_overflow_refuted :
+(** The former finding pts-uint64-overflow (timescale 10^7, second 20497030; fixed by 3532b28). *)
+Theorem C13_pts_overflow_fixed :
   let ts := 10000000 in let k := 20497030 in
   exists v, decode_section (e_data (emsg_of ts 1 (k * ts))) = Some v /\
-            v_pts_time v <> (k * 90000) mod two33.
-Proof. exact pts_overflow_witness. Qed.
-Print Assumptions C13_pts_overflow_refuted.
+            v_pts_time v = (k * 90000) mod two33 /\ v_pts_adjustment v = 0.
+Proof. exact pts_no_overflow_example. Qed.
+Print Assumptions C13_pts_overflow_fixed.
 
 (** gots.ComputeCRC (augmented bit-serial form, start value 0x46af6449) is CRC-32/MPEG-2
     (start 0xffffffff, polynomial 0x04c11db7, no reflection) for every byte string. *)
@@ -123,7 +133,7 @@ Theorem C13_section : forall p, params_in_range p ->
     v_table_id v = 252 /\ v_section_length v = lenZ (createSpliceInsertPayload p) - 3 /\
     v_cmd_len v = 20 /\ v_cmd_type v = 5 /\ v_program v = true /\ v_has_dur v = true /\
     v_time_specified v = true /\ v_desc_len v = 0 /\
-    v_pts_adjustment v = (two33 - p_pts p) mod two33.
+    v_pts_adjustment v = 0.
 Proof. exact section_roundtrip. Qed.
 Print Assumptions C13_section.
 
@@ -144,6 +154,13 @@ Theorem C13_video_only : forall scte s d ts,
 Proof. exact no_event_elsewhere. Qed.
 Print Assumptions C13_video_only.
 
+(** Chunked low-latency delivery (chunkdur_<s>) carries the same event as the unchunked segment
+    (former finding missing-event:chunked, fixed by b6338c6: the emsg was dropped). *)
+Theorem C13_chunked_same : forall chunked isVideo scte s d ts,
+  delivered_emsg chunked isVideo scte s d ts = segment_emsg isVideo scte s d ts.
+Proof. exact chunked_same. Qed.
+Print Assumptions C13_chunked_same.
+
 (** Non-vacuity: 2 s segments at 90 kHz over [0 s, 130 s), N = 3: the domain hypotheses hold, the
     events are exactly the splices at 10, 36, 46, 70, 96, 106, 130 s in this order, and minute 1 has 3. *)
 Example C13_example :
@@ -152,7 +169,9 @@ Example C13_example :
   seq_dom ts segs /\
   events ts 3 segs = map (fun k => k * ts) [10; 36; 46; 70; 96; 106; 130] /\
   lenZ (events_in_minute ts 3 1 segs) = 3 /\
-  holder ((60 * 1 + 3) * ts) segs = Some (62 * ts, 64 * ts).
+  holder ((60 * 1 + 3) * ts) segs = Some (62 * ts, 64 * ts) /\
+  (* 8 s segments: the sequence of segs8, events at 10 and 70 s *)
+  events ts 1 segs8 = [10 * ts; 70 * ts].
 Proof.
   cbv zeta. split.
   - unfold seq_dom. split; [lia|]. split; [|split; [discriminate|split; vm_compute; [discriminate|reflexivity]]].
